@@ -108,7 +108,12 @@ def judge_with_refs(spec, res, refs):
     vs = []
     for i, (g, rec, ref) in enumerate(zip(spec['gradings'], res['gradings'], refs)):
         a, b = grd.comparable(rec), grd.comparable(ref)
-        if a != b:
+        f = g.get('fault')
+        count_defined = bool(f) and (f['kind'] == 'sync_pedal' or f.get('dP', 0) > 0)
+        # A crash placed "d events into pedal code" is not a property of the (script, submission) pair: a change
+        # that legitimately does less work the second time would move it.  Such gradings serve as polluters of
+        # the later ones; their own result is compared only when the crash point is a line of the script itself.
+        if a != b and not count_defined:
             fields = []
             if a['raised'] != b['raised']:
                 fields.append('raised')
